@@ -472,5 +472,85 @@ class Columns(Part):
         return res
 
 
+class WithOtherOptions(Part):
+    name = "with_every_other_option"
+    desc = "one line per format class and a lone hash, under every combination of the other features (addresses anonymized / undone / off, words, AS numbers) and every entry point: secrets replaced, output independent of them"
+
+    LINES = [("password {}", "text"), ("enable secret 5 {}", "md5"), ("username admin password 7 {}", "type7"),
+             ('set system tacplus-server 9.9.9.9 secret "{}";', "juniper9"), ("snmp-server community {} ro", "hex"),
+             ("  key-string {}", "numeric"), ("something {} here", "md5"), ("bind-thing {}", "juniper9")]
+
+    def __init__(self, tier, seed):
+        self.tier, self.seed = tier, seed
+
+    def cases(self):
+        return [{"ip": ip, "word": w, "asn": a, "entry": e} for ip in ("off", "anonymize", "undo") for w in (False, True)
+                for a in (False, True) for e in ("FileAnonymizer", "anonymize_files", "main")]
+
+    def _run(self, case, text, root, tag):
+        import io
+
+        from netconan.anonymize_files import FileAnonymizer, anonymize_files
+
+        kw = dict(anon_pwd=True, anon_ip=case["ip"] == "anonymize", undo_ip_anon=case["ip"] == "undo", salt="saltForTest",
+                  sensitive_words=["zzzword"] if case["word"] else None, as_numbers=["65001"] if case["asn"] else None)
+        with seams.capture_logs(20) as recs, seams.capture_stdio():
+            if case["entry"] == "FileAnonymizer":
+                out = io.StringIO()
+                FileAnonymizer(**kw).anonymize_io(io.StringIO(text), out)
+                return out.getvalue(), [(r[0], r[1]) for r in recs]
+            import os
+
+            src, dst = os.path.join(root, "i%s.cfg" % tag), os.path.join(root, "o%s.cfg" % tag)
+            with open(src, "w") as f:
+                f.write(text)
+            if case["entry"] == "anonymize_files":
+                anonymize_files(src, dst, **kw)
+            else:
+                from netconan.netconan import main
+
+                main(["-p", "-s", "saltForTest", "-i", src, "-o", dst] + {"off": [], "anonymize": ["-a"], "undo": ["-u"]}[case["ip"]]
+                     + (["-w", "zzzword"] if case["word"] else []) + (["-n", "65001"] if case["asn"] else []))
+            with open(dst) as f:
+                return f.read(), [(r[0], r[1].replace(src, "<in>").replace(dst, "<out>")) for r in recs]
+
+    def run(self, case):
+        import shutil
+
+        res = Res()
+        root = seams.scratch_dir("c07o")
+        try:
+            pa, pb = [], []
+            for tmpl, cls in self.LINES:
+                A, B = secdom.pools(cls, self.seed)[0]
+                pa.append(tmpl.format(A))
+                pb.append(tmpl.format(B))
+            oa, la = self._run(case, "".join(l + "\n" for l in pa), root, "a")
+            ob, lb = self._run(case, "".join(l + "\n" for l in pb), root, "b")
+            seams.restore_globals()
+            res.evals += len(pa)
+            res.nt(tuple(sorted(case.items())))
+            res.out(oa == ob)
+            ga, gb = oa.split("\n"), ob.split("\n")
+            for i, (tmpl, cls) in enumerate(self.LINES):
+                if i >= len(ga) or i >= len(gb) or ga[i] != gb[i]:
+                    res.violation("output-depends-on-secret|with-other-options|%s" % cls,
+                                  "%s, addresses %s, words %s, AS %s: %r -> %r ; %r -> %r" % (
+                                      case["entry"], case["ip"], case["word"], case["asn"], pa[i], ga[i] if i < len(ga) else None,
+                                      pb[i], gb[i] if i < len(gb) else None), case)
+                    break
+                if ga[i] == pa[i]:
+                    res.violation("secret-survives|with-other-options|%s" % cls,
+                                  "%s, addresses %s, words %s, AS %s: %r unchanged" % (
+                                      case["entry"], case["ip"], case["word"], case["asn"], pa[i]), case)
+                    break
+            if la != lb:
+                res.violation("log-depends-on-secret|with-other-options", "%r vs %r" % (la[:2], lb[:2]), case)
+        finally:
+            shutil.rmtree(root, ignore_errors=True)
+        res.samples.append(case)
+        return res
+
+
 def parts(tier, seed):
-    return [Forms(tier, seed), Standalone(tier, seed), Sequences(tier, seed), SeveralOnOneLine(tier, seed), PunctuatedHashes(tier, seed), Columns(tier, seed)]
+    return [Forms(tier, seed), Standalone(tier, seed), Sequences(tier, seed), SeveralOnOneLine(tier, seed), PunctuatedHashes(tier, seed), Columns(tier, seed), WithOtherOptions(tier, seed)]
